@@ -98,7 +98,8 @@ def gen(seed: int, tier: str) -> dict[str, Any]:
         else:
             t = rng.uniform(0.0, horizon)
         ops.append({"t": round(t, 6), "op": "user_disconnect"})
-    gwscript: dict[str, Any] = {}
+    # the gateway numbers its channels from here (one octet; 0 is a legal id)
+    gwscript: dict[str, Any] = {"first_channel": rng.choice([1, 1, 1, 0, 0, 23, 255])}
     if rng.random() < 0.3:
         gwscript["connect"] = [None] + [rng.choice([None, {"k": "drop"}, {"k": "error", "status": 0x24},
                                                      {"k": "ok", "lat": 1.2}, {"k": "dup", "d": 0.3},
